@@ -71,6 +71,8 @@ inductive SOp where
   | number (assign : Bool) (i : BitVec 64) (base width flags : Nat)
   | hex (assign : Bool) (bytes : List Nat) (sep : Nat)
   | truncate (n : Nat)
+  /-- `append_format/assign_format`: `out` is the text `vsnprintf` produces for the arguments -/
+  | format (assign : Bool) (out : List Nat)
 
 /-- effect of one successful operation on the abstract byte list -/
 def stepSpec (op : SOp) (l : List Nat) : List Nat :=
@@ -88,11 +90,19 @@ def stepSpec (op : SOp) (l : List Nat) : List Nat :=
                          | none => l          -- kInvalidArgument: unchanged
   | .hex a bs sep => put a (specHexText bs sep)
   | .truncate n => l.take n
+  | .format a out => put a out
 
-/-- a sequence of operations; `oks` says for each operation whether the allocator let it succeed
-(out-of-memory leaves the string unchanged) -/
-def runSpecE : List SOp → List Bool → List Nat → List Nat
-  | op :: ops, ok :: oks, l => runSpecE ops oks (if ok then stepSpec op l else l)
+/-- what the allocator did to one operation: it succeeded (`ok`: the operation has its specified effect — this
+includes `kInvalidArgument`, whose specified effect is "nothing"); it failed and the string keeps its content
+(`unchanged`); or it failed inside an assign-format whose output had already overwritten the old text, and the string
+was emptied (`cleared`) -/
+inductive Flag where | ok | unchanged | cleared
+  deriving DecidableEq, Repr
+
+/-- a sequence of operations; `fl` says for each operation what the allocator did -/
+def runSpecE : List SOp → List Flag → List Nat → List Nat
+  | op :: ops, f :: fl, l =>
+    runSpecE ops fl (match f with | .ok => stepSpec op l | .unchanged => l | .cleared => [])
   | _, _, l => l
 
 /-- a sequence of operations when memory never runs out -/
@@ -107,6 +117,7 @@ def SOp.cost : SOp → Nat
   | .padEnd n _ => n
   | .number _ _ _ _ _ => 330
   | .hex _ bs _ => 3 * bs.length
+  | .format _ out => out.length
   | _ => 0
 
 end AsmjitVerif.Str
